@@ -32,6 +32,7 @@ import functools
 import io
 import itertools
 import math
+import re
 import warnings
 
 import numpy as np
@@ -61,6 +62,9 @@ ASSUMPTIONS = [
     "logistic models only: 1-3 features, 0-2 sources, diagonal / scalar Gaussian noise, parameters from the hand-written "
     "catalogue (noise_std catalogue / 0.001 / 0.6) or from a 4-iteration fit of the 5-individual catalogue cohort",
     "requested features: the model's list, the reversed list, a strict subset (docs/algorithms.md: 'the name of the outcomes to simulate')",
+    "a non-positive distance_visit_mean with a positive distance_visit_std has an open status (the parameter is documented as 'mean interval "
+    "between two visits', the refusal message says 'need to be positive', the validation only refuses 'both <= 0'): a documented refusal "
+    "before anything is generated and a completed run are both accepted, anything else is a violation",
     "validity = documented requirements only (types, presence, patient_number > 0, std >= 0, min spacing >= 0, not both "
     "distance mean and std <= 0, table with ID and TIME columns and no missing age); NaN / inf / bool parameter values, empty tables "
     "and unknown feature names are outside the alphabets (their status is not documented)",
@@ -211,7 +215,8 @@ def _is_num(x):
 
 
 def documented_validity(feats, vp):
-    """(True, None) or (False, kind of violated requirement)."""
+    """(True, None), (False, kind of violated requirement) or (None, reason) when the documentation leaves the status open
+    (then a refusal with the documented error before anything is generated AND a run to completion are both acceptable)."""
     if not isinstance(feats, list):
         return False, "features not a list"
     if len(feats) == 0:
@@ -248,6 +253,10 @@ def documented_validity(feats, vp):
             return False, "negative min_spacing_between_visits"
         if vp["distance_visit_mean"] <= 0 and vp["distance_visit_std"] <= 0:
             return False, "distance_visit_mean and distance_visit_std both <= 0"
+        if vp["distance_visit_mean"] <= 0:
+            # 'Mean interval between two visits' / message '... need to be positive': a non-positive mean with a positive std is
+            # neither clearly allowed nor clearly forbidden by the documentation => a documented refusal and a completed run are both fine
+            return None, "distance_visit_mean <= 0 with distance_visit_std > 0"
         return True, None
     if "df_visits" not in vp:
         return False, "missing key"
@@ -396,20 +405,16 @@ def failure_kind(ex):
     return None
 
 
+def failure_fingerprint(ex):
+    """Used only to recognise 'the same failure' while attributing it: kind + message without numbers."""
+    k = failure_kind(ex)
+    if ex["kind"] == "raise":
+        return k + ":" + re.sub(r"[^A-Za-z ]+", "", str(ex["exc"]))[:60]
+    return k
+
+
 # ------------------------------------------------------------------------------------------------
-# attribution of a failure of a valid design to the design / model feature that causes it
-
-
-def _label_model(k, m):
-    if k == "ns":
-        return "model without sources" if m["ns"] == 0 else f"model with {m['ns']} sources"
-    if k == "dim":
-        return f"model with {m['dim']} feature(s)"
-    if k == "noise":
-        return f"{m['src']} model with scalar noise"
-    if k == "src":
-        return "freshly fitted model"
-    return f"noise_std {m.get('level')}"
+# attribution of a failure of a valid design to the smallest set of model / design traits reproducing it on the baseline
 
 
 def _label_features(f):
@@ -427,49 +432,52 @@ def _spacing_label(v):
     return f"min_spacing_between_visits rounding to {p} decimals"
 
 
-def deviations(case):
-    """[(label, case with that single trait put back to the baseline)]"""
+def baseline_of(case):
+    v = case["visit"]
+    if v.get("visit_type") == "random":
+        visit = dict(BASE_RANDOM)
+    else:
+        visit = {"visit_type": "dataframe", "table": dict(BASE_TABLE)}
+    return {"model": dict(BASE_MODEL), "features": "all", "visit": visit, "seed": case["seed"]}
+
+
+def traits(case):
+    """[(label, function copying that trait of `case` into another case)] for every deviation from the baseline."""
     out = []
     m = case["model"]
 
-    def with_model(**kw):
-        c = copy.deepcopy(case)
-        c["model"].update(kw)
-        return c
+    def setter(path, keys):
+        def apply(c):
+            src, dst = case, c
+            for k in path:
+                src, dst = src[k], dst[k]
+            for k in keys:
+                if k in src:
+                    dst[k] = copy.deepcopy(src[k])
+                else:
+                    dst.pop(k, None)
+        return apply
 
-    if m["ns"] != BASE_MODEL["ns"]:
-        out.append((_label_model("ns", m), with_model(ns=1, dim=max(2, m["dim"]))))
-    if m["dim"] != BASE_MODEL["dim"] and not (m["dim"] == 1):
-        out.append((_label_model("dim", m), with_model(dim=2, ns=min(m["ns"], 1))))
+    if (m["dim"], m["ns"]) != (BASE_MODEL["dim"], BASE_MODEL["ns"]):
+        lab = "model without sources" if m["ns"] == 0 else f"model with {m['dim']} features and {m['ns']} sources"
+        out.append((lab, setter(["model"], ["dim", "ns"])))
     if m["noise"] != BASE_MODEL["noise"]:
-        out.append((_label_model("noise", m), with_model(noise=BASE_MODEL["noise"])))
-    if m["src"] != BASE_MODEL["src"]:
-        out.append((_label_model("src", m), with_model(src="loaded")))
+        out.append((f"{m['src']} model with scalar noise", setter(["model"], ["noise", "src"])))
+    elif m["src"] != BASE_MODEL["src"]:
+        out.append(("freshly fitted model", setter(["model"], ["src"])))
     if m.get("level", "catalogue") != "catalogue":
-        out.append((_label_model("level", m), with_model(level="catalogue")))
+        out.append((f"noise_std {m['level']}", setter(["model"], ["level"])))
     if case["features"] != "all":
-        c = copy.deepcopy(case)
-        c["features"] = "all"
-        out.append((_label_features(case["features"]), c))
+        out.append((_label_features(case["features"]), setter([], ["features"])))
     v = case["visit"]
     if v.get("visit_type") == "random":
-
-        def with_visit(**kw):
-            c = copy.deepcopy(case)
-            for k, x in kw.items():
-                if x is None:
-                    c["visit"].pop(k, None)
-                else:
-                    c["visit"][k] = x
-            return c
-
         if v["patient_number"] != BASE_RANDOM["patient_number"]:
-            lab = "single individual" if v["patient_number"] == 1 else "several individuals"
-            out.append((lab, with_visit(patient_number=BASE_RANDOM["patient_number"])))
+            lab = "single individual" if v["patient_number"] == 1 else "more than 2 individuals"
+            out.append((lab, setter(["visit"], ["patient_number"])))
         for a, lab in (("first_visit", "first-visit parameters"), ("time_follow_up", "follow-up parameters")):
             ks = [a + "_mean", a + "_std"]
             if any(v[k] != BASE_RANDOM[k] for k in ks):
-                out.append((lab, with_visit(**{k: BASE_RANDOM[k] for k in ks})))
+                out.append((lab, setter(["visit"], ks)))
         ks = ["distance_visit_mean", "distance_visit_std"]
         if any(v[k] != BASE_RANDOM[k] for k in ks):
             if v[ks[0]] <= 0 < v[ks[1]]:
@@ -478,37 +486,49 @@ def deviations(case):
                 lab = "distance_visit_std = 0"
             else:
                 lab = "distance parameters"
-            out.append((lab, with_visit(**{k: BASE_RANDOM[k] for k in ks})))
+            out.append((lab, setter(["visit"], ks)))
         if "min_spacing_between_visits" in v:
-            out.append((_spacing_label(v), with_visit(min_spacing_between_visits=None)))
+            out.append((_spacing_label(v), setter(["visit"], ["min_spacing_between_visits"])))
     else:
         t = v["table"]
         if t.get("id_type", "str") != "str":
-            c = copy.deepcopy(case)
-            c["visit"]["table"]["id_type"] = "str"
             lab = {"int": "integer identifiers in the visit table", "numstr": "numeric-looking string identifiers"}[t["id_type"]]
-            out.append((lab, c))
+            out.append((lab, setter(["visit", "table"], ["id_type"])))
         if t["ids"] != BASE_TABLE["ids"] or t["times"] != BASE_TABLE["times"] or t.get("extra") or t.get("int_times"):
-            c = copy.deepcopy(case)
-            c["visit"]["table"] = dict(BASE_TABLE, id_type=t.get("id_type", "str"))
             lab = "single individual" if len(set(map(str, t["ids"]))) == 1 else "visit table rows"
-            out.append((lab, c))
+            out.append((lab, setter(["visit", "table"], ["ids", "times", "extra", "int_times"])))
     return out
 
 
-def attribute(case, kind, memo=None):
-    devs = deviations(case)
-    key = (kind, tuple(lab for lab, _ in devs))
+MAX_ATTRIBUTION_SUBSET = 2
+
+
+def attribute(case, ex, memo=None):
+    """Label of the smallest (first in a fixed order) set of traits of `case` that reproduces the failure `ex` when put on the
+    baseline case; all traits when no set of <= MAX_ATTRIBUTION_SUBSET traits does.  Returns (label, number of extra executions)."""
+    fp = failure_fingerprint(ex)
+    tr = traits(case)
+    labels = [lab for lab, _ in tr]
+    key = (fp, tuple(labels))
     if memo is not None and key in memo:
         return memo[key], 0
-    culprits, n = [], 0
-    for lab, c2 in devs:
-        n += 1
-        if failure_kind(execute(c2)) != kind:
-            culprits.append(lab)
-    if not culprits:
-        culprits = [lab for lab, _ in devs] or ["baseline design"]
-    label = " + ".join(dict.fromkeys(culprits))
+    n = 0
+    found = None
+    if len(tr) > 1:
+        for size in range(1, min(MAX_ATTRIBUTION_SUBSET, len(tr) - 1) + 1):
+            for sub in itertools.combinations(range(len(tr)), size):
+                c = baseline_of(case)
+                for i in sub:
+                    tr[i][1](c)
+                n += 1
+                if failure_fingerprint(execute(c)) == fp:
+                    found = [labels[i] for i in sub]
+                    break
+            if found:
+                break
+    if found is None:
+        found = labels or ["baseline design"]
+    label = " + ".join(dict.fromkeys(found))
     if memo is not None:
         memo[key] = label
     return label, n
@@ -699,7 +719,7 @@ def _read_beta_calls(calls, n_feats):
             elif not al.index.equals(index):
                 return None
             al, be = al.to_numpy(dtype=float), be.to_numpy(dtype=float)
-            out = np.asarray(out, dtype=float)
+            out = np.atleast_1d(np.asarray(out, dtype=float))  # scipy returns a scalar for a single visit
             if out.shape != al.shape:
                 return None
             mus.append(al / (al + be))
@@ -727,7 +747,10 @@ def run_case(case, acc=None, memo=None):
         acc.evaluation()
     vio = []
     rec = ex["rec"]
-    if not ex["valid"]:
+    if ex["valid"] is None and ex["kind"] == "raise" and isinstance(ex["exc"], LeaspyAlgoInputError) \
+            and rec.n_draw_calls == 0 and ex["rng_untouched"]:
+        return vio, "open-status:refused:LeaspyAlgoInputError:nodraw", True
+    if ex["valid"] is False:
         why = ex["why"]
         drew = rec.n_draw_calls > 0 or not ex["rng_untouched"]
         if ex["kind"] == "completed":
@@ -753,7 +776,7 @@ def run_case(case, acc=None, memo=None):
 
     kind = failure_kind(ex)
     if kind is not None:
-        label, n_extra = attribute(case, kind, memo)
+        label, n_extra = attribute(case, ex, memo)
         if acc is not None:
             acc.evaluation(n_extra)
             acc.count("attribution_runs", n_extra)
@@ -991,8 +1014,14 @@ def shards(tier, seed):
         step = CHUNK[block]
         for s in (_seeds(seed) if smode == "all" else [0]):
             for lo in range(0, len(visits), step):
-                out.append({"kind": "valid-space", "tier": tier, "block": bi, "lo": lo, "hi": min(len(visits), lo + step), "seed": s})
-    return out
+                out.append({"kind": "valid-space", "tier": tier, "block": bi, "name": block, "lo": lo, "hi": min(len(visits), lo + step), "seed": s})
+    # simplest first, and one shard of every kind of space at the head (the evidence samples come from the first shards)
+    seen, head, tail = set(), [], []
+    for sh in out:
+        k = sh.get("name", sh["kind"])
+        (tail if k in seen else head).append(sh)
+        seen.add(k)
+    return head + tail
 
 
 def _cases_of(shard):
@@ -1017,7 +1046,7 @@ def run_shard(shard):
         acc.outcome(outcome)
         if nontrivial:
             acc.nontriv(digest(case))
-        if outcome.startswith("valid:completed") or outcome.startswith("invalid:refused:LeaspyAlgoInputError"):
+        if (outcome.startswith("valid:completed") or outcome.startswith("invalid:refused:LeaspyAlgoInputError")) and not acc.samples:
             acc.sample({"case": case, "outcome": outcome})
         for v in vio:
             acc.violation(v["signature"], v["message"], case, expected=v["expected"], observed=v["observed"])
@@ -1050,6 +1079,7 @@ def self_check():
 
         feats, vp = materialize(case, _M)
         assert documented_validity(feats, vp)[0] is False, (f, v)
+    assert documented_validity(["a"], dict(doc_example, distance_visit_mean=-1))[0] is None
     before = np.random.normal
     with Recorder().installed():
         assert np.random.normal is not before
